@@ -211,7 +211,8 @@ deriving Repr
 
 /-- `MessageReader::read_meta_len` on the unread input `bs` -/
 def readMetaLen (bs : List Nat) : MetaLen :=
-  if bs.length < 4 then .eos []         -- `read_exact` fails with UnexpectedEof → `Ok(None)`
+  if bs.length = 0 then .eos []         -- `read` returns 0 before any prefix byte → `Ok(None)`
+  else if bs.length < 4 then .err       -- the stream ends inside a length prefix → `Err(UnexpectedEof)`
   else
     let first := bs.take 4
     let r : Option (List Nat × List Nat) :=
